@@ -258,6 +258,8 @@ func runC20(c *Ctx) {
 		c.Floor("C20.clamp/"+name, n, 3)
 	}
 	// ---- the fixed generator plays its configuration without writing into it
+	nextAtomic(c, "C20.next-atomic")
+	configIntact(c, "C20.config-intact")
 	c.Rule("C20.fixed-intact", "FixedQueue: NewFixed keeps the caller's response slice (the configuration every Subscribe/Poll is reset from), so no FixedQueue method stores into an element of resp or through a response taken from it - unless NewFixed copies the slice first; a second generator built from the same configuration must find it unchanged")
 	{
 		fResp := P.Field("testing/fake/queue", "FixedQueue", "resp")
